@@ -270,12 +270,15 @@ where
             if mark_branches {
                 buf.close_branch("item");
             }
-            *position = Position::NextChild;
         }
         if mark_branches {
             buf.close_branch("for");
         }
+        // the items keep track of the position themselves (hydration walks them with one shared
+        // position, as for a `Vec`); the marker is a comment node, so whatever follows it is the
+        // next child
         buf.push_str("<!>");
+        *position = Position::NextChild;
     }
 
     fn to_html_async_with_buf<const OUT_OF_ORDER: bool>(
@@ -309,12 +312,12 @@ where
             if mark_branches {
                 buf.close_branch(branch_name.as_ref().unwrap());
             }
-            *position = Position::NextChild;
         }
         if mark_branches {
             buf.close_branch("for");
         }
         buf.push_sync("<!>");
+        *position = Position::NextChild;
     }
 
     fn hydrate<const FROM_SERVER: bool>(
